@@ -525,7 +525,8 @@ class CallMixin:
     def call_method(self, st, recv, name, args, kw, node, static_cls=None):
         recv = self.unwrap_opt(st, recv, node, '.%s()' % name)
         ty = recv.ty
-        args = [a if isinstance(a, Entity) else self.need_value(a) for a in args]
+        args = [self.need_value(a) if (not isinstance(a, Entity) or (a.kind == 'ext' and a.data in api.EXT_VALUES)) else a
+                for a in args]
         if ty == TStr:
             return self.str_method(st, recv, name, args, kw, node)
         if isinstance(ty, TSeq):
